@@ -486,6 +486,18 @@ class FnExec:
             how = "return" if sig[0] == "ret" else f"raise:{sig[1].t}"
             for name, e in self.c.always:
                 self.oblige(st, f"always[{name}]@{how}", self.truth(self.ev_spec(e, st)), "always")
+        cells = [tuple(p[1:].split(".", 1)) for p in self.c.modifies if p.startswith("@")]
+        if cells and sig[0] == "ret":
+            # cell-level frame: every other heap cell that existed at entry is unchanged
+            for (key, attr), v0 in self.entry.heap.items():
+                if (key, attr) in cells or key.startswith("$L"):
+                    continue
+                v1 = st.heap.get((key, attr))
+                if v1 is None or v1.kind != v0.kind or v0.kind not in ("int", "bool", "bytes", "str", "obj", "objseq", "arr"):
+                    continue
+                if v1.t is v0.t or v1.t.eq(v0.t):
+                    continue
+                self.oblige(st, f"frame[{key}.{attr}]", v1.t == v0.t, "frame")
         if sig[0] == "ret" and self.c.generator:
             uses = self.inst_uses(self.c.use, st, None)
             for name, e in self.c.ends:
@@ -842,6 +854,8 @@ class FnExec:
                 yield st1, ("raise", v.exc)
                 continue
             st2 = st1.clone()
+            if v.kind == "ctx_stream":
+                v = SV("ref", v.t, "gstream")       # `async with channel.request(...) as stream`
             if item.optional_vars is not None:
                 self.assign(item.optional_vars, v, st2)
             # context managers in the subset (BytesIO, warnings.catch_warnings) have no-op __exit__
@@ -1692,7 +1706,7 @@ class FnExec:
             return z3.BoolVal(a.t == b.t)
         if ka == kb == "ref":
             return z3.BoolVal(a.t == b.t)
-        if ka == kb and ka in ("arr", "objseq"):
+        if ka == kb and ka in ("arr", "objseq", "intseq"):
             return a.t == b.t
         if {ka, kb} <= {"int", "bool", "bytes", "str", "tuple", "const"}:
             return z3.BoolVal(False)
@@ -1749,6 +1763,10 @@ class FnExec:
     def slice(self, seq, lo, hi, st):
         if seq.kind == "obj":
             seq = sv_bytes(self.as_bytes(seq, st, f"sliced value@{self.cur_line}"))
+        if seq.kind == "objseq":
+            l = self.as_int(lo, st) if lo is not None else z3.IntVal(0)
+            h = self.as_int(hi, st) if hi is not None else z3.Length(seq.t)
+            return SV("objseq", z3.SubSeq(seq.t, l, h - l))
         if seq.kind not in ("bytes", "str"):
             r = self.eng.spec.slice_hook(self, seq, lo, hi, st)
             if r is not None:
@@ -1833,7 +1851,8 @@ class FnExec:
             yield st, self.resolve_global(attr, front.load_module(v.t[1]))
             return
         if v.kind == "func" and v.t[0] == "builtin":
-            yield st, SV("func", ("builtin", f"{v.t[1]}.{attr}"))
+            r = self.eng.spec._plug("builtin_value", self, f"{v.t[1]}.{attr}")
+            yield st, (r if r is not None else SV("func", ("builtin", f"{v.t[1]}.{attr}")))
             return
         if v.kind == "func" and v.t[0] == "class":
             yield st, SV("func", ("classattr", v.t[1], attr))
@@ -1865,6 +1884,19 @@ class FnExec:
 
     def s_AsyncFor(self, node, st):
         yield from self.s_For(node, st)
+
+    def s_AsyncWith(self, node, st):
+        yield from self.s_With(node, st)
+
+    def feasible_true(self, st, cond):
+        """cond is implied by the path condition (used by models that need a definite flag)"""
+        s = z3.Solver()
+        s.set("timeout", 2000)
+        for c in st.pc:
+            if not has_quantifier(c):
+                s.add(c)
+        s.add(z3.Not(cond))
+        return s.check() == z3.unsat
 
     def e_Call(self, node, st):
         # special forms in spec expressions
@@ -1906,8 +1938,8 @@ class FnExec:
                 body = self.truth(self.ev_spec(lam.body, st2, self._result))
                 yield st, sv_bool(z3.ForAll([i], z3.Implies(z3.And(lo <= i, i < hi), body)))
                 return
-        if any(isinstance(a, ast.Starred) for a in node.args) or any(k.arg is None for k in node.keywords):
-            raise Unsupported("* / ** in call")
+        if any(isinstance(a, ast.Starred) for a in node.args):
+            raise Unsupported("* in call")
         for st1, f in self.ev(node.func, st):
             if isinstance(f, Raised):
                 yield st1, f
@@ -1917,7 +1949,19 @@ class FnExec:
                     yield st2, args
                     continue
                 pos = args[: len(node.args)]
-                kw = {k.arg: v for k, v in zip(node.keywords, args[len(node.args):])}
+                kw = {}
+                for k, v in zip(node.keywords, args[len(node.args):]):
+                    if k.arg is not None:
+                        kw[k.arg] = v
+                        continue
+                    # **mapping with constant string keys
+                    if v.kind != "cdict":
+                        raise Unsupported("** of a non-literal mapping")
+                    for kk, vv in v.t:
+                        ks = concrete_str(kk.t) if kk.kind == "str" else None
+                        if ks is None:
+                            raise Unsupported("** with a non-constant key")
+                        kw[ks] = vv
                 yield from self.call(f, pos, kw, st2, node)
 
     # ------------------------------------------------------------------ calls
@@ -2003,7 +2047,7 @@ class FnExec:
                 sub.__dict__.update(self.__dict__)
                 sub.mi = mi
                 bound[k] = sub.ev1(v[1], State())
-        if c.inline:
+        if c.inline or c.inline_at_calls:
             yield from self.inline_call(c, mi, q, fn_node, bound, st)
             return
         if c.assumed:
@@ -2104,6 +2148,16 @@ class FnExec:
 
     def havoc_modified(self, c, cst, st):
         refs = set()
+        cells = [tuple(p[1:].split(".", 1)) for p in c.modifies if p.startswith("@")]
+        if cells:
+            # cell-level frame: only the named heap cells change
+            st.heap = dict(st.heap)
+            for key, attr in cells:
+                v = st.heap.get((key, attr))
+                if v is not None and v.kind in ("int", "bool", "bytes", "str", "obj", "arr", "objseq"):
+                    nv = SV(v.kind, fresh(f"{key}.{attr}", v.t.sort()))
+                    st.heap[(key, attr)] = nv
+            return
         for p in c.modifies:
             v = cst.env.get(p)
             if v is not None and v.kind == "ref":
